@@ -16,11 +16,18 @@ import Frp.Props.C16
       model, written as the regenerated fact says it is (`C16.startAlways`): `done` iff the last login is answered;
     * `gleave`: with the regenerated lock graph in order (`C16.lock_order_respected`) the join and the last leave
       cannot block each other: `done`; otherwise a stalled answer is an allowed outcome;
+    * `gchurn`: the same race without a gate (leave and join written back to back, hundreds of rounds): same answer;
     * `swc <ver> <src> <sport> <dst> <dport>`: `Crash.handleStartWork` on what the resolver made of the addresses
       (reported by the harness: relational), switch `Crash.startWorkAddrIsFixed`;
     * `closerace udp` (and the storms that send user datagrams while udp proxies close): `Crash.fstep` — while the
       hand-over in ForwardUserConn is a plain send (regenerated fact) the panic is an allowed outcome;
     * `nstorm`: valid nat-hole traffic — `done` (the table accesses are covered by obligation 1).
+    * `ureq` / `ustorm` (hostile USER traffic on the tcpmux / vhost http / vhost https / tcp / udp listeners): whatever the
+      listener answers (`r:…`) is accepted — `C16.index_sites_guarded` says the parsers behind them cannot index out of range;
+    * `canon <host>`: `Host.canonicalHost` (= the Go function with its indexing explicit, `C16.canonicalHost_never_panics`) on
+      ASCII hosts; strings.ToLower is not modelled beyond ASCII, there the implementation's answer is accepted;
+    * `ptear <plugin> <mux> <hold> <n>`: `UserIn.prun` with the Close method of that plugin as the regenerated facts have it,
+      n active requests, four turns of the worker: `done` iff it reaches the next login.
   The property predicate `C16.holdsOn` is evaluated on the implementation's own observation: any
   crash / hang / failed watchdog is `prop=FAILS`, whether or not the model predicted it.
 -/
@@ -108,6 +115,25 @@ def swcModel (ver src sport : String) (impl : String) : Option String :=
         | _, _ => none
       | _ => some "res=??;out=?"
 
+/-- the calls of the plugin's `Close()` (regenerated), by the plugin's file name -/
+def closeCallsOf (plugin : String) : Option (List UserIn.CloseCall) :=
+  (Frp.Gen.PluginClose.closeFacts.find? (fun f => f.file = "pkg/plugin/client/" ++ plugin ++ ".go" && f.recv != "Listener")).map (·.calls)
+
+def ptearModel (plugin mux : String) (n : Nat) : String :=
+  match closeCallsOf plugin with
+  | none => "badplugin"
+  | some cs =>
+    if (UserIn.prun (mux = "1") cs { active := n } [.worker, .worker, .worker, .worker]).pc = 4 then "done"
+    else "fail:ptear-nologin"
+
+def canonModel (h : String) (impl : String) : Option String :=
+  match unhx h with
+  | none => none
+  | some hb =>
+    if Str.isAscii hb then
+      some (match Host.canonicalHost hb with | none => "err" | some x => hx x)
+    else some impl
+
 /-- the model's result; for the relational ops the implementation's result is accepted if allowed -/
 def modelOf (tok : List String) (impl : String) : Option String :=
   match tok with
@@ -156,7 +182,16 @@ def modelOf (tok : List String) (impl : String) : Option String :=
     | some kk => some (reloginModel kk order)
   | ["gleave", _, _, _] =>
     if !lockOrderOk && impl.startsWith "fail:gleave" then some impl else some "done"
+  | ["gchurn", _, _, _] =>
+    if !lockOrderOk && impl.startsWith "fail:gchurn" then some impl else some "done"
   | ["swc", ver, src, sport, _, _] => swcModel ver src sport impl
+  | ["ureq", _, _] => if impl.startsWith "r:" then some impl else some "r:"
+  | ["ustorm", _, _, _] => some "done"
+  | ["canon", h] => canonModel h impl
+  | ["ptear", plugin, mux, _, n] =>
+    match n.toNat? with
+    | none => none
+    | some k => some (ptearModel plugin mux k)
   | ["watch"] => some "ok"
   | ["stat"] => if impl.startsWith "stat:" then some impl else some "stat:"
   | ["race6", _] =>
